@@ -321,7 +321,7 @@ class Report:
                 continue
             seen.add(hsh)
             nv += 1
-            if nv > 8:
+            if nv > 40:
                 continue
             os.makedirs(outdir, exist_ok=True)
             path = os.path.join(outdir, "%s-%s.json" % (self.prop, hsh))
